@@ -23,12 +23,17 @@ META = dict(
 
 COMPS_2A = ["rev", "inv", "chk", "txt", "sig"]
 COMPS_KNIT = ["rev", "inv", "txt", "sig", "dangle"]
+NEEDS = {True: ("inv", "chk", "txt"), False: ("inv", "txt")}
 
 
-def cfg(comps, haschk, maxins, extra=""):
-    return ("SPECIFICATION Spec\nCONSTANTS\n  Components = {%s}\n  HasChk = %s\n  MaxIns = %d\n"
-            "INVARIANT CommittedComplete\nINVARIANT NoDangling\nPROPERTY NoEffectUntilCommit\nPROPERTY RefusalIsNoop\n"
-            % (", ".join('"%s"' % c for c in comps), "TRUE" if haschk else "FALSE", maxins)) + extra
+def cfg(comps, haschk, maxins, extra="", complete=True):
+    """2a-like formats (haschk) check new revisions and refuse early; knit-pack formats do neither (named deviations
+    CheckNeeds = FALSE, LateRefusal = TRUE in WriteGroup.tla), so CommittedComplete is NOT an invariant of their model."""
+    return ("SPECIFICATION Spec\nCONSTANTS\n  Components = {%s}\n  HasChk = %s\n  CheckNeeds = %s\n  LateRefusal = %s\n"
+            "  MaxIns = %d\n%sINVARIANT NoDangling\nPROPERTY NoEffectUntilCommit\nPROPERTY RefusalIsNoop\n"
+            % (", ".join('"%s"' % c for c in comps), "TRUE" if haschk else "FALSE", "TRUE" if haschk else "FALSE",
+               "FALSE" if haschk else "TRUE", maxins,
+               "INVARIANT CommittedComplete\n" if (complete and haschk) else "")) + extra
 
 
 class Fixture:
@@ -68,6 +73,12 @@ class Fixture:
                 else controldir.ControlDir.open_from_transport(rt.clone("t")).open_repository()
         from breezy import repository as R
         return R.Repository.open(self.url)
+
+    def reopen_remote(self):
+        """A new RemoteRepository (new client medium, new server-side objects) on the current target."""
+        from breezy import transport as T, controldir
+        rt, m = world.inproc_remote_transport(T.get_transport(self.srv.get_url()))
+        return controldir.ControlDir.open_from_transport(rt.clone("t")).open_repository()
 
     def insert(self, repo, comp):
         s = self.src.repository
@@ -124,6 +135,7 @@ def replay_paths(sub, chunk):
     from bzrformats.errors import BzrCheckError
     for pidx, (fmt, remote, comps, nodes, path) in enumerate(chunk):
         fx = FIX[fmt]
+        haschk = "chk" in comps
         repo = fx.new_target(remote)
         try:
             repo.lock_write()
@@ -142,7 +154,7 @@ def replay_paths(sub, chunk):
                             repo.start_write_group()
                         elif name == "Ins":
                             fx.insert(repo, arg)
-                        elif name == "Abort":
+                        elif name in ("Abort", "AbortWrecked"):
                             repo.abort_write_group()
                         elif name == "Commit":
                             try:
@@ -155,9 +167,13 @@ def replay_paths(sub, chunk):
                             # "later resuming": a fresh repository object, as another process / the smart server would;
                             # every other path resumes its FIRST suspension on the same object (what local callers do)
                             first = not any(c[0] == "Resume" for c in calls)
-                            if not (first and pidx % 2 == 0) and not remote:
-                                stale.append(repo)
-                                repo = R_open(fx.url)
+                            if not (first and pidx % 2 == 0):
+                                if remote:      # the lock is the server's: release it before another client resumes
+                                    repo.unlock()
+                                    repo = fx.reopen_remote()
+                                else:
+                                    stale.append(repo)
+                                    repo = R_open(fx.url)
                                 repo.lock_write()
                             repo.resume_write_group(tokens)
                     except Exception as e:
@@ -165,6 +181,18 @@ def replay_paths(sub, chunk):
                     calls.append([name, arg, outcome])
                     got = fx.project()
                     rep = {"format": fmt, "remote": remote, "calls": calls}
+                    if name in ("Abort", "AbortWrecked") and prev_want is not None and prev_want["wg"] == "refused" \
+                            and not haschk and prev_want["ntok"] > 0 and (name == "AbortWrecked" or outcome.startswith("error")):
+                        # named deviation AbortWrecked: abort after a late refusal may raise and the object is unusable;
+                        # only the repository content is judged, then the path ends
+                        sub.cov["abort_after_late_refusal"] = sub.cov.get("abort_after_late_refusal", 0) + 1
+                        if outcome.startswith("error"):
+                            sub.cov["abort_after_late_refusal_raised"] = sub.cov.get("abort_after_late_refusal_raised", 0) + 1
+                        if got["visible"] != sorted(want["visible"]) or got["listed"] != prev_got["listed"]:
+                            sub.violation("visible-mismatch:Abort:after-late-refusal",
+                                          "after the abort a fresh open sees %s / %d packs, specified %s" % (
+                                              got["visible"], got["listed"], sorted(want["visible"])), rep)
+                        break
                     if outcome != want["last"]:
                         if outcome.startswith("error"):
                             sub.violation("wg-call-raises:%s:%s" % (name, outcome), "%s raised %s" % (name, outcome), rep)
@@ -175,6 +203,11 @@ def replay_paths(sub, chunk):
                             sub.violation("commit-refused-unexpectedly:%s" % "+".join(sorted(want["ins"])),
                                           "commit of %s refused" % sorted(want["ins"]), rep)
                         break
+                    if name == "Commit" and outcome == "ok" and "rev" in got["visible"]:
+                        missing = sorted(set(NEEDS[haschk]) - set(got["visible"]))
+                        if missing:     # C06: "a write group whose new revisions reference missing inventories or texts is refused"
+                            sub.violation("incomplete-revision-committed:%s:missing-%s" % (fmt, "+".join(missing)),
+                                          "commit_write_group accepted revision r2 without its %s" % ", ".join(missing), rep)
                     if got["visible"] != sorted(want["visible"]):
                         phase = "uncommitted" if want["wg"] != "none" or name in ("Abort",) else "committed"
                         sub.violation("visible-mismatch:%s:%s" % (name, phase),
@@ -272,6 +305,12 @@ def run(ctx):
         for w in ("WitnessRefused", "WitnessResumedCommit", "WitnessTwoTokensCommitted"):
             tlc.check(ctx, "WriteGroup", cfg_text=cfg(comps, haschk, maxins, "INVARIANT %s\n" % w).replace(
                 "PROPERTY NoEffectUntilCommit\nPROPERTY RefusalIsNoop\n", ""), expect_violation=w, label="witness " + w, workers=4)
+        if not haschk:
+            # design-level counter-example of the named deviation CheckNeeds = FALSE: TLC must find a committed revision
+            # without its inventory / text (the finding incomplete-revision-committed:<fmt>:* reproduces it on real code)
+            tlc.check(ctx, "WriteGroup", cfg_text=cfg(comps, haschk, maxins, "INVARIANT CommittedComplete\n").replace(
+                "PROPERTY NoEffectUntilCommit\nPROPERTY RefusalIsNoop\n", ""), expect_violation="CommittedComplete",
+                label="deviation CheckNeeds=FALSE " + fmt, workers=4)
         nodes, edges, inits, res = tlc.graph(ctx, "WriteGroup", cfg_text=cfg(comps, haschk, maxins), workers=4,
                                              label="MC + graph %s%s" % (fmt, " remote" if remote else ""))
         paths = list(tlc.transition_cover(nodes, edges, inits, rng=ctx.rng, max_len=14))
